@@ -45,14 +45,18 @@ def grammar(sizes, model_name, calls=CALLS, positions="all", rng=None):
                     out.append({"call": call, "arg": "player", "kind": k, "pos": [i, j]})
         if call == "rate":
             for sel in ("ranks", "scores"):
-                for k in SEL_NONLIST:
-                    out.append({"call": call, "arg": sel, "kind": "nonlist:" + k})
-                lens = sorted(set([l for l in range(1, n)] + [n + 1, 2 * n]))
-                for l in lens:
-                    out.append({"call": call, "arg": sel, "kind": "len", "len": l})
-                for i in range(n):
-                    for k in SEL_ELEM:
-                        out.append({"call": call, "arg": sel, "kind": "elem:" + k, "pos": [i]})
+                # the other selector: omitted / explicitly empty (= not given) / a valid list
+                # (= both given: malformed in its own right)
+                for other in (None, "empty", "valid"):
+                    extra = {"other": other} if other else {}
+                    for k in SEL_NONLIST:
+                        out.append(dict({"call": call, "arg": sel, "kind": "nonlist:" + k}, **extra))
+                    lens = sorted(set([l for l in range(1, n)] + [n + 1, 2 * n]))
+                    for l in lens:
+                        out.append(dict({"call": call, "arg": sel, "kind": "len", "len": l}, **extra))
+                    for i in range(n):
+                        for k in SEL_ELEM:
+                            out.append(dict({"call": call, "arg": sel, "kind": "elem:" + k, "pos": [i]}, **extra))
             out.append({"call": call, "arg": "both", "kind": "both"})
             out.append({"call": call, "arg": "both", "kind": "both_float"})
     if positions != "all" and rng is not None:
@@ -180,6 +184,11 @@ def build_call(desc, model_name, teams):
             kw[arg] = v
         else:
             raise ValueError(kind)
+        other = "scores" if arg == "ranks" else "ranks"
+        if desc.get("other") == "empty":
+            kw[other] = []
+        elif desc.get("other") == "valid":
+            kw[other] = [k + 1 for k in range(n)]
     elif arg == "both":
         if kind == "both":
             kw["ranks"] = [k + 1 for k in range(n)]
@@ -205,7 +214,7 @@ def invoke(model, call, args, kw):
 
 
 def fault_label(desc):
-    return "%s:%s:%s" % (desc["call"], desc["arg"], desc["kind"])
+    return "%s:%s:%s%s" % (desc["call"], desc["arg"], desc["kind"], ("+other_" + desc["other"]) if desc.get("other") else "")
 
 
 # ------------------------------------------------------------------ must-accept twins
